@@ -633,6 +633,21 @@ def run(chk):
                 if len(chk.samples) < 8 and e["id"] in ("K1", "L1"):
                     chk.samples.append({"known_finding": e["id"], "sql": winfo[i]["sql"], "analyzer": an, "reference": e["witness"]["reference"],
                                         "reference_outcome": o_ref, "analyzer_outcome": o})
+    # dialect findings recorded with their SQL text only (DML families the C09 generator does not produce)
+    twit = [e for e in chk.findings if e.get("status") == "finding" and (e.get("witness") or {}).get("kind") == "sql-text"]
+    if twit:
+        tjobs = []
+        for e in twit:
+            tjobs.append({"sql": e["witness"]["sql"], "dialect": "ansi", "shape": False})
+            tjobs.append({"sql": e["witness"]["sql"], "dialect": e["witness"]["dialect"], "shape": False})
+        tres = run_jobs(tjobs, chunksize=1)
+        for i, e in enumerate(twit):
+            o_ref, o = outcome(tres[2 * i]), outcome(tres[2 * i + 1])
+            chk.count("witness:" + e["id"], True)
+            if o_ref is None or o is None or not disagrees(o_ref, o, e["witness"]["dialect"]):
+                not_reproduced.append(e["id"])
+            else:
+                total[e["id"]] += 1
     for c, n in sorted(total.items()):
         if n:
             chk.known(c, n)
